@@ -12,6 +12,10 @@
 (*                ret |-> the type in which the comparison function hands  *)
 (*                       its answer back: "bool", "np_bool" (numpy.bool_,   *)
 (*                       what adj[i, j] or np.isclose give), "int" (0 / 1)] *)
+(*                ng |-> sequence of the identifiers of the events that    *)
+(*                       have NO GEOMETRY (SoundEvent(geometry=None))]     *)
+(* Whether an event has a geometry is nobody's business but the comparison *)
+(* function's -- which is arbitrary -- so no clause mentions ng.           *)
 (* The statement quantifies over ANY symmetric comparison function; two    *)
 (* events are similar when its answer is TRUE IN PYTHON'S SENSE (truthy),  *)
 (* so the graph -- and every clause -- is the same for every ret.          *)
@@ -35,7 +39,7 @@ IdEdge(c, a, b) == \E k \in DOMAIN c.e : c.e[k] = <<a, b>> \/ c.e[k] = <<b, a>>
 Edge(c, i, j)   == i # j /\ IdEdge(c, c.id[i], c.id[j])
 Mult(c, a)      == Cardinality({i \in Nodes(c) : c.id[i] = a})          \* how often event a occurs in the list
 RetTypes == {"bool", "np_bool", "int"}
-WellFormed(c)   == /\ Len(c.id) = c.n /\ c.ret \in RetTypes
+WellFormed(c)   == /\ Len(c.id) = c.n /\ c.ret \in RetTypes /\ Range(c.ng) \subseteq Ids(c)
                    /\ \A k \in DOMAIN c.e : /\ c.e[k][1] \in Ids(c) /\ c.e[k][2] \in Ids(c) /\ c.e[k][1] <= c.e[k][2]
                                             /\ (c.e[k][1] = c.e[k][2] => Mult(c, c.e[k][1]) >= 2)
 
